@@ -69,17 +69,15 @@ def configs(tier):
 
 
 def subgrid(tier):
+    """few-segment CHK files (segment size ~ half / third of the file) so that schedule trees stay small"""
     out = []
-    for (k, n) in [(1, 1), (1, 2), (2, 2), (2, 3), (1, 3), (3, 3), (2, 4), (3, 4)]:
-        for seg in (k, 2 * k):
-            for nseg, tail in ((1, 0), (2, 1), (3, 0)):
-                size = max(56, 0) if False else None
-                es = eff_seg(k, seg)
-                size = nseg * es + tail if nseg * es + tail > 55 else 56 + (nseg - 1) * es + tail
-                S = n
-                out.append({"k": k, "n": n, "happy": min(n, S), "seg": seg, "size": size, "S": S})
+    kns = [(1, 1), (1, 2), (2, 2), (2, 3), (1, 3), (3, 3), (2, 4), (3, 4)]
     if tier == "quick":
-        out = out[::2]
+        kns = [(1, 2), (2, 3), (3, 3), (2, 4)]
+    for (k, n) in kns:
+        for (size, seg) in ((56, 56), (57, 30), (61, 21)):   # 1 segment / 2 segments with short tail / 3 segments
+            out.append({"k": k, "n": n, "happy": n, "seg": seg, "size": size, "S": n})
+        out.append({"k": k, "n": n, "happy": 1, "seg": 30, "size": 57, "S": max(1, n - 1)})  # several shares on one server
     return out
 
 
@@ -207,7 +205,7 @@ def run(tier, seed):
     A = configs(tier)
     res = common.pmap(_chunk_a, A, (seed,), chunks=min(len(A), 256))
     nA = res.counts.get("executions", 0)
-    d_bound = 1 if tier == "quick" else 2
+    d_bound = 2 if tier == "quick" else 3
     B = [(c, ph) for c in subgrid(tier) for ph in ("upload", "download")]
     rb = common.pmap(_chunk_b, B, (seed, d_bound), chunks=len(B))
     res.merge(rb)
